@@ -429,7 +429,7 @@ def corpus():
 
 
 def cases(rng, tier):
-    npairs = 65 if tier == "quick" else 600
+    npairs = 65 if tier == "quick" else 400
     for pi in range(npairs):
         n = rng.choice([2, 3, 4, 5, 6, 7]) if pi % 4 else rng.choice([2, 3])
         k = rng.choice([1, 2, 3, 4, 5])
